@@ -69,26 +69,42 @@ theorem ctx_ge (F : Facts) (h : F.inFolder = true) : ctx F ≥ -25 := by
   simp only [h, ↓reduceIte]
   split <;> omega
 
+theorem filterOutcome_none_iff (next : Bool) (F : Facts) : filterOutcome next F = none ↔ passes next F = true := by
+  unfold filterOutcome passes
+  cases F.absOK <;> cases F.hasPrefix <;> cases F.cleanOK <;> cases next <;> cases F.restHasDigit <;>
+    cases F.eqCurrent <;> cases F.eqFolder <;> cases rxExtraneous F.text.toList <;>
+    cases rxNumber F.remainder.toList <;> by_cases h : F.text.utf8ByteSize > 25 <;> simp [h]
+
+/-- the filters never produce a candidate -/
+theorem filterOutcome_not_cand (next : Bool) (F : Facts) (v : Verdict) (sc : Int) (h : filterOutcome next F = some v) :
+    v ≠ .cand sc := by
+  unfold filterOutcome at h
+  repeat' split at h
+  all_goals (first | (cases h; intro hc; cases hc) | (cases h))
+
+/-- an anchor that becomes a candidate got past every filter -/
+theorem verdict_cand_passes (next : Bool) (F : Facts) (sc : Int) (h : verdict next F = .cand sc) :
+    passes next F = true := by
+  unfold verdict at h
+  split at h
+  · rename_i v hv
+    exact absurd h (filterOutcome_not_cand next F v sc hv)
+  · rename_i hn
+    exact (filterOutcome_none_iff next F).mp hn
+
 /-- **the score of a quiet anchor**: context + 50 for the label of its direction + number bonus +
 page-difference bonus -/
 theorem verdict_quiet (next : Bool) (F : Facts) (hp : passes next F = true) (hq : quiet next F = true) :
     verdict next F = .cand (ctx F + (if own next (dataOf F) then 50 else 0) + numBonus next F.text.toList + diffBonus next F) := by
-  simp only [passes, Bool.and_eq_true, Bool.or_eq_true, Bool.not_eq_eq_eq_not, Bool.not_true] at hp
-  obtain ⟨⟨⟨⟨⟨⟨⟨h1, h2⟩, h3⟩, h4⟩, h5⟩, h6⟩, h7⟩, h8⟩ := hp
+  unfold verdict
+  rw [(filterOutcome_none_iff next F).mpr hp]
   simp only [quiet, Bool.and_eq_true, Bool.not_eq_eq_eq_not, Bool.not_true] at hq
   obtain ⟨⟨⟨⟨⟨q1, q2⟩, q3⟩, q4⟩, q5⟩, q6⟩ := hq
-  have h3' : (next && !F.restHasDigit) = false := by
-    cases next <;> simp_all
-  have h8' : (next && !rxNumber F.remainder.toList) = false := by
-    cases next <;> simp_all
-  unfold verdict
-  simp only [h1, h2, h3', h4, h5, h7, h8', Bool.not_true, Bool.false_eq_true, ↓reduceIte]
-  simp only [q1, q2, q3, q4, q5, Bool.false_eq_true, ↓reduceIte]
-  unfold ctx
-  have h6' : ¬ F.text.utf8ByteSize > 25 := by simpa using h6
   have q6' : ¬ F.text.utf8ByteSize > 10 := by simpa using q6
-  rw [if_neg h6', if_neg q6']
+  simp only []
   congr 1
+  unfold score ctx
+  simp only [q1, q2, q3, q4, q5, if_neg q6', Bool.false_eq_true, ↓reduceIte]
   omega
 
 /-- **A labelled anchor to the neighbouring page beats a numbered one**: two quiet anchors of one
